@@ -147,6 +147,37 @@ def run(ctx):
         except Exception as e:  # noqa
             ctx.violation(f"sticky-raises:{type(e).__name__}", f"sticky assignor raised {e!r} on {enc_parts(parts)} {enc_parts(members)}",
                           {"cases": [{"parts": parts, "members": members}]})
+    # second rounds that change subscriptions / partition counts / drop a topic's metadata: no stickiness
+    # clause speaks about them, they are here for the T-diff of the Lean port (revocation paths)
+    n_var = 2500 if ctx.thorough else 250
+    for _ in range(n_var):
+        nt = rng.randrange(2, 5)
+        parts = [(t, list(range(rng.randrange(1, 6)))) for t in range(nt)]
+        members = [(m, sorted(rng.sample(range(nt), rng.randrange(1, nt + 1)))) for m in range(rng.randrange(1, 6))]
+        try:
+            r1 = sticky_round(A, parts, members, None, -1)
+            prev = tomap(r1)
+            kind = rng.randrange(4)
+            if kind == 0:      # members change their subscriptions
+                mem2 = [(m, sorted(rng.sample(range(nt), rng.randrange(1, nt + 1)))) for m, _ in members]
+                parts2 = parts
+            elif kind == 1:    # partition counts change
+                mem2 = members
+                parts2 = [(t, list(range(max(0, len(ps) + rng.choice([-2, -1, 1, 2]))))) for t, ps in parts]
+            elif kind == 2:    # a topic disappears from the metadata
+                mem2 = members
+                parts2 = [tp for tp in parts if tp[0] != rng.randrange(nt)]
+            else:              # everything at once, plus joins and leaves
+                mem2 = [(m, sorted(rng.sample(range(nt), rng.randrange(1, nt + 1)))) for m, _ in members if rng.random() < 0.8] + \
+                       [(30 + j, sorted(rng.sample(range(nt), rng.randrange(1, nt + 1)))) for j in range(rng.randrange(0, 3))]
+                parts2 = [(t, list(range(max(0, len(ps) + rng.choice([-1, 0, 1]))))) for t, ps in parts]
+            if mem2:
+                sticky_round(A, parts2, mem2, prev, -1)
+        except AssignorHang:
+            hangs += 1
+        except Exception as e:  # noqa
+            ctx.violation(f"sticky-raises:{type(e).__name__}", f"sticky assignor raised {e!r} after a subscription/metadata change",
+                          {"cases": [{"parts": parts, "members": members}]})
     # chains of up to 5 rounds (identical subscriptions): leave / join / same, statements between consecutive rounds
     n_chain = 600 if ctx.thorough else 60
     for _ in range(n_chain):
